@@ -376,6 +376,163 @@ PROPS["C18"] = {
     "level_note": "Trusted: Kani/CBMC; writer statistics sound per chunk; footer contents; carriers for chunk metadata; the induction over chunks is pen and paper.",
 }
 
+# ------------------------------------------------------------------ C41
+GRV = "metastore::gravitino"
+_C41 = [
+    ("c41_b_roundtrip_one_chunk_1", "dechunk(1 CRLF x CRLF 0 CRLF CRLF) == Some([x]) for every byte x", "1 chunk of 1 byte", None),
+    ("c41_b_roundtrip_one_chunk_3_padded_size", "size line '03 ' (leading zero, trailing blank): Some([x,y,z])", "1 chunk of 3 bytes", None),
+    ("c41_b_roundtrip_two_chunks", "two chunks reassemble in order: Some([x,y])", "2 chunks of 1 byte", None),
+    ("c41_b_empty_body", "last-chunk only: Some([])", "fixed input", None),
+    ("c41_b_chunk_extension_ignored", "a chunk extension (`1;e`) does not change the decoded body", "1 chunk, 1-letter extension", None),
+    ("c41_b_missing_crlf_after_data_rejected", "chunk data not followed by CRLF is rejected (None)", "1 chunk, 2 arbitrary bytes in place of CRLF", None),
+    ("c41_b_short_data_rejected", "declared size larger than the data present: None", "declared 5, present 1", None),
+    ("c41_b_non_hex_size_rejected", "size line that is not hexadecimal: None", "1 letter g..z", None),
+    ("c41_b_missing_last_chunk_rejected", "input ends after a complete data chunk (no last-chunk): None", "1 chunk", None),
+    ("c41_b_huge_size_no_panic", "size ffffffffffffffff: no panic (size + 2), rejected", "fixed input", None),
+    ("c41_b_huge_size_minus_one_no_panic", "size fffffffffffffffe: no panic, rejected", "fixed input", None),
+    ("c41_b_arbitrary_bytes_no_panic", "no 3-byte ASCII input makes the decoder panic", "3 arbitrary ASCII bytes", None),
+]
+PROPS["C41"] = {
+    "files": ["kani/gravitino.rs"],
+    "level": "other",
+    "explanation": "Bounded stand-in only: gravitino::dechunk is byte/str code (windows/position, from_utf8, trim, from_str_radix) that Verus cannot read and CBMC can only execute on short inputs. "
+                   "Each obligation runs the REAL function on a structured symbolic input: the framing is laid out by the harness, payload bytes / extension letters / stray bytes are symbolic; "
+                   "three std string functions are replaced by byte-level models that agree with std on ASCII (listed). Decided within these bounds: round trip for 1-3 payload bytes in 1-2 chunks, "
+                   "chunk extensions, rejection of four kinds of malformed framing, and panic-freedom for huge sizes and for every 3-byte ASCII input. Nothing here is a proof for all bodies and chunkings.",
+    "kani": [H(GRV, n, "gravitino::dechunk", c, lane="B", bound=b, finding=f) for n, c, b, f in _C41],
+    "harness_timeout": {"quick": "15m", "thorough": "30m"},
+    "trusted_base": [
+        "stubs (assumed contracts on std, ASCII only; a non-ASCII byte reaching them fails the harness): std::str::from_utf8, str::trim, usize::from_str_radix(.., 16)",
+        "bounded: every obligation fixes the number and size of chunks (<= 2 chunks, <= 3 payload bytes)",
+    ],
+    "not_under_contract": ["http_get (socket I/O, header parsing, Transfer-Encoding detection)", "bodies / chunk counts beyond the stated bounds", "non-ASCII bytes in the size line"],
+    "technique": "bounded Kani harnesses (structured symbolic inputs) on the real dechunk; labelled bounded, not a proof",
+    "level_text": "Bounded model checking of the real decoder on structured inputs; complete only within the stated chunk counts and sizes. Chosen because no contract-based route reaches str-heavy byte parsing with the installed tools.",
+    "level_note": "Trusted: Kani/CBMC; three std string functions replaced by ASCII byte-level models; bounds as listed per obligation.",
+}
+
+# ------------------------------------------------------------------ C06
+CEX = "physical::compiled_expr"
+PROPS["C06"] = {
+    "files": ["kani/compiled_expr.rs"],
+    "level": "proof",
+    "explanation": "The kernels of the compiled predicate path (CompiledPredicate::eval_chunk: CmpF64 / CmpI64 / CmpI32 in every operand shape, f64 arithmetic, And/Or/Not) are run by CBMC on the real code for "
+                   "ALL scalar bit patterns and compared with the interpreter's per-element semantics, for which the harness calls the real arrow functions (ArrowNativeTypeOp::is_eq/is_lt/..: total order for "
+                   "floats). Kernels are position-wise uniform, so a per-element result is a per-row result for every batch length.",
+    "kani": [
+        H(CEX, "c06_cmp_f64_scalars", "CompiledPredicate::eval_chunk (CmpF64)", "mask bit == arrow total-order comparison, all f64 bit patterns x 6 operators", finding="D7"),
+        H(CEX, "c06_cmp_f64_scalars__excluding_known", "CompiledPredicate::eval_chunk (CmpF64)", "same, outside class D7 (NaN operand, or both operands zero); mask is 0/1"),
+        H(CEX, "c06_cmp_f64_shape_reg_lit__excluding_known", "CompiledPredicate::eval_chunk (CmpF64, LitF64)", "register/scalar shape keeps the operand order"),
+        H(CEX, "c06_cmp_f64_shape_lit_reg__excluding_known", "CompiledPredicate::eval_chunk (CmpF64, LitF64)", "scalar/register shape keeps the operand order"),
+        H(CEX, "c06_cmp_f64_shape_reg_reg__excluding_known", "CompiledPredicate::eval_chunk (CmpF64, LitF64)", "register/register shape keeps the operand order"),
+        H(CEX, "c06_cmp_i64_scalars", "CompiledPredicate::eval_chunk (CmpI64)", "mask bit == arrow i64 comparison, all inputs, mask is 0/1"),
+        H(CEX, "c06_cmp_i32_scalars", "CompiledPredicate::eval_chunk (CmpI32)", "mask bit == arrow i32 comparison (Int32 and Date32 columns), all inputs"),
+        H(CEX, "c06_arith_f64_add", "CompiledPredicate::eval_chunk (Arith, LitF64)", "Add bit-equal to the IEEE operation; operand registers untouched (magnitudes bounded so results stay finite)"),
+        H(CEX, "c06_arith_f64_sub", "CompiledPredicate::eval_chunk (Arith, LitF64)", "Subtract bit-equal to the IEEE operation"),
+        H(CEX, "c06_arith_f64_mul", "CompiledPredicate::eval_chunk (Arith, LitF64)", "Multiply bit-equal to the IEEE operation", tier="thorough"),
+        H(CEX, "c02_o1_mask_and", "CompiledPredicate::eval_chunk (And)", "d == x & y on 0/1 masks; operands untouched"),
+        H(CEX, "c02_o1_mask_or", "CompiledPredicate::eval_chunk (Or)", "d == x | y on 0/1 masks; operands untouched"),
+        H(CEX, "c02_o1_mask_not", "CompiledPredicate::eval_chunk (Not)", "d == 1 - x on 0/1 masks; operand untouched"),
+    ],
+    "trusted_base": [
+        "interpreter comparison semantics = arrow ArrowNativeTypeOp (called as oracle); arrow kernels are position-wise uniform",
+        "column-slice shapes read arrow value buffers directly (`arr.values()[start..start+len]`): exercised with literal/register operands only; a 1-row real array costs ~100 s per harness and is not part of the quick tier",
+        "QE_COMPILE switch (compilation_enabled) and PredicateEvaluator's fallback order are structural",
+    ],
+    "not_under_contract": ["evaluate()'s bit packing and chunk loop (lengths not multiple of 8 / 1024)", "Compiler::boolean/side/num_f64 (which expressions are accepted) — needs arrow Schema construction", "f64 division (float division is beyond the SAT budget)", "find_batch_column"],
+    "technique": "Kani proof harnesses in place on the private eval_chunk kernels, all scalar bit patterns, against the real arrow scalar comparison functions as oracle",
+    "level_text": "Deductive per kernel for all inputs (loop bound 2 rows is irrelevant: every row runs the same straight-line code); mismatches between IEEE and total order are the known finding D7.",
+    "level_note": "Trusted: Kani/CBMC; arrow's scalar comparison functions as the interpreter's semantics; position-wise uniformity of kernels. Known finding D7 excluded by class.",
+}
+
+# ------------------------------------------------------------------ C02
+CFO = "optimizer::rules::constant_folding"
+PROPS["C02"] = {
+    "files": ["kani/compiled_expr.rs", "kani/constant_folding.rs"],
+    "level": "proof",
+    "explanation": "Decided for the compiled predicate path and the constant folder. (O1) the And/Or/Not mask kernels compute the two-valued connectives; (O2) the validity rule of CompiledPredicate::evaluate "
+                   "(verbatim region, arrays as a carrier) combined with the mask: a row must be kept exactly when the SQL three-valued value of `a<c1 AND/OR b<c2` is TRUE, for all nine operand states; "
+                   "(O4) ConstantFolding::eval_int64 / eval_bool / eval_float64 return the SQL value of the literal expression for all inputs and never panic. The interpreter's AND/OR/NOT arms "
+                   "(arrow bit-chunk kernels) exceed 10 min / 5 GB in CBMC and are not under contract.",
+    "kani": [
+        H(CEX, "c02_o1_mask_and", "CompiledPredicate::eval_chunk (And)", "d == x & y on 0/1 masks; operands untouched"),
+        H(CEX, "c02_o1_mask_or", "CompiledPredicate::eval_chunk (Or)", "d == x | y on 0/1 masks; operands untouched"),
+        H(CEX, "c02_o1_mask_not", "CompiledPredicate::eval_chunk (Not)", "d == 1 - x on 0/1 masks; operand untouched"),
+        H(CEX, "c02_o2_compiled_validity_kleene", "CompiledPredicate::evaluate (validity region + any_nulls region)", "row kept <=> Kleene value of `p AND/OR q` is TRUE, all operand states (NULL cells carry arbitrary values)", lane="KX", finding="D1"),
+        H(CEX, "c02_o2_compiled_validity_kleene__excluding_known", "CompiledPredicate::evaluate (validity region + any_nulls region)", "same, outside class D1 (exactly one operand NULL and the other decides)", lane="KX"),
+        H(CFO, "c02_o4_eval_int64", "ConstantFolding::eval_int64", "never panics; a folded value is the exact integer result / comparison; overflow and division by zero are not folded; all (i64, op, i64)"),
+        H(CFO, "c02_o4_eval_bool", "ConstantFolding::eval_bool", "AND/OR/=/<> on non-NULL booleans"),
+        H(CFO, "c02_o4_eval_float64__excluding_known", "ConstantFolding::eval_float64", "comparisons equal the interpreter's (arrow total order) outside the NaN/signed-zero class; x / 0.0 is not folded"),
+    ],
+    "trusted_base": [
+        "carrier KArr for the typed column arrays in the validity region: as_any_array().is_valid(row), null_count()",
+        "a NULL cell's value-buffer content is arbitrary (modelled by an arbitrary leaf mask bit)",
+    ],
+    "not_under_contract": ["filter::evaluate_binary_op And/Or arms, evaluate_unary_op Not, evaluate_in_list, BETWEEN tail (arrow boolean kernels: > 10 min / 5 GB each in CBMC)", "ConstantFolding::fold_expr's simplifications (x AND true etc.) and eval_string", "LIKE fast path vs general matcher", "IS [NOT] NULL"],
+    "technique": "Kani harnesses in place on the mask kernels and the constant folder (all inputs) + Kani on the verbatim validity region of CompiledPredicate::evaluate against Kleene logic",
+    "level_text": "Deductive for the units named: all operand states and all literal values. The interpreter path is outside CBMC's reach and is stated as not under contract.",
+    "level_note": "Trusted: Kani/CBMC; carrier for arrow arrays in the validity region. Known finding D1 (null-strict AND/OR in the compiled path, as in the interpreter) excluded by class.",
+}
+
+# ------------------------------------------------------------------ C16
+HTC = "distributed::http_client"
+PROPS["C16"] = {
+    "files": ["kani/http_client.rs"],
+    "level": "other",
+    "explanation": "Bounded stand-in only: http_client::parse_response is byte/str code (windows/position, from_utf8_lossy, split_whitespace, parse, split_once, to_ascii_lowercase) that Verus cannot read. "
+                   "CBMC runs the REAL function on structured inputs: fixed status line and header block, symbolic body bytes and symbolic truncation point. Decided within these bounds: a response "
+                   "without header terminator is an error; the body is exactly what follows the terminator; a body shorter than the declared Content-Length is never returned as a success.",
+    "kani": [
+        H(HTC, "c16_b_no_terminator_is_error", "http_client::parse_response", "no CRLFCRLF => Err (never a success with an empty body)", lane="B", bound="<= 6 arbitrary bytes"),
+        H(HTC, "c16_b_body_is_rest_after_terminator", "http_client::parse_response", "status parsed; body == bytes after the terminator", lane="B", bound="fixed 18-byte head, 2 symbolic body bytes"),
+        H(HTC, "c16_b_truncated_body_is_error", "http_client::parse_response", "Content-Length: 3 with 0/1/2 body bytes delivered: never Ok with a short body", lane="B", bound="fixed 38-byte head, every truncation point of a 3-byte body"),
+        H(HTC, "c16_b_complete_body_with_length", "http_client::parse_response", "Content-Length: 2 and 2 bytes delivered: Ok, body complete", lane="B", bound="fixed head, 2 symbolic body bytes"),
+    ],
+    "harness_timeout": {"quick": "20m", "thorough": "40m"},
+    "trusted_base": ["bounded: one fixed header block; header values are not symbolic"],
+    "not_under_contract": ["request / request_inner (socket, timeout, read_to_end)", "header sets, status lines and Content-Length values other than the fixed ones", "HttpResponse::header"],
+    "technique": "bounded Kani harnesses (structured symbolic inputs) on the real parse_response; labelled bounded, not a proof",
+    "level_text": "Bounded model checking of the real parser on structured inputs: the truncation clause is checked for every cut point of one declared length. Chosen because string parsing is out of reach of the contract route with the installed tools.",
+    "level_note": "Trusted: Kani/CBMC; fixed header block; the socket layer is outside any verifier.",
+}
+
+# ------------------------------------------------------------------ C15
+MEMB = "distributed::membership::verif_kani::carr"
+
+
+def _c15(name, fn, contract, bound, tier="quick"):
+    return {"name": f"{MEMB}::{name}", "fn": fn, "contract": contract, "lane": "KX", "bound": bound, "tier": tier, "finding": None}
+
+
+PROPS["C15"] = {
+    "files": ["kani/membership.rs"],
+    "level": "proof",
+    "explanation": "The whole `impl Membership` block and its data types are copied verbatim on every run and compiled against carrier types (String as an address token, BTreeMap/HashSet/Vec as small "
+                   "association lists, parking_lot::Mutex as an uncontended cell; is_self_address and now_unix_ms are oracles). Every harness starts from an ARBITRARY well-formed view (any subset of the "
+                   "address universe as peers, arbitrary probe records, arbitrary generation), so each is the inductive step of the representation invariant: after any history the view lists this node "
+                   "exactly once and never as a peer, addresses are strictly increasing, a resolve error removes nobody, the generation never decreases and advances exactly on a change of the member set "
+                   "(and when a probe crosses Up), and re-resolving the same set keeps every peer's probe state field by field. Bounded: the address universe (data independence: the code only compares and orders addresses).",
+    "kani": [
+        _c15("c15_new_view", "Membership::new / members / peer_addresses", "fresh view: no peers, generation 0, not resolved, invariant holds", None),
+        _c15("c15_members_view", "Membership::members / peer_addresses", "on any view: strictly increasing by address, self exactly once with is_self, every other entry a peer, address set == peers + self", "universe: self + 3 peers"),
+        _c15("c15_set_members_step_small", "Membership::set_members", "keys' == non-self incoming addresses; surviving records unchanged field by field; new peers start Unknown; generation' == generation + [set changed]; resolved; error cleared; change log == symmetric difference, Removed before Added, each sorted", "universe: self, self under another spelling, 2 peers; incoming list <= 2 entries (duplicates allowed)"),
+        _c15("c15_set_members_step", "Membership::set_members", "same contract", "universe: self, self under another spelling, 3 peers (one differs from self only by port); incoming list <= 3 entries", tier="thorough"),
+        _c15("c15_record_probe_step", "Membership::record_up / record_down", "member set unchanged; only the probed record changes; generation + 1 exactly when the status crosses Up; unknown address (incl. self) is a no-op", "universe: self + 3 peers"),
+        _c15("c15_record_resolve_error_step", "Membership::record_resolve_error", "no member removed, no record changed, generation and resolved unchanged, error recorded", "universe: self + 3 peers"),
+    ],
+    "harness_timeout": {"quick": "15m", "thorough": "40m"},
+    "trusted_base": [
+        "carriers (R6, executable models of the dependencies): String = address token deref-ing to str with the universe's string order; BTreeMap = association list kept sorted; HashSet = insertion-ordered small set (hash iteration order is one fixed order); Vec = fixed-capacity vector whose sort_by/sort_by_key is an insertion sort; parking_lot::Mutex = uncontended cell",
+        "is_self_address oracle: the byte-identical address and one alternative spelling are self, a port-only difference is not (DNS / getifaddrs are outside any verifier)",
+        "`#[serde(..)]` field attributes of struct Member are stripped in the carrier instance",
+        "address universe bounded (self + 3 peers); all histories of all lengths follow by induction from the arbitrary pre-state",
+    ],
+    "not_under_contract": ["is_self_address itself (DNS, local interfaces)", "the prober / discovery tasks in server.rs that call these methods", "concurrent callers (the Mutex is modelled as uncontended: each method is one critical section)"],
+    "technique": "Kani on the verbatim `impl Membership` compiled against carrier collection types, one inductive step per operation from an arbitrary view",
+    "level_text": "Deductive per operation from an arbitrary pre-state, hence for every history; bounded only in the size of the address universe, which the code treats uniformly (comparison and ordering only).",
+    "level_note": "Trusted: Kani/CBMC; carrier models of String/BTreeMap/HashSet/Vec/Mutex; the is_self_address oracle; universe bound.",
+}
+
 
 def claimed():
     return sorted(PROPS)
